@@ -71,8 +71,11 @@ CHECKS['C08'] = dict(
          'C08_children_inherit (!notnew makes all children refuse creation, a nested !new re-allows it), C08_first_stage (a !notnew node anywhere in a first document fails the build). '
          'allow_new / _get_child_kwargs are tied exhaustively (T2); the recursion by sampled correspondence on !new/!notnew histories incl. function nodes. C08_cmdline_path: for EVERY non-empty sequence of '
          'well-formed name[index]* groups the inline-option parser recovers exactly the path NodePath renders (the translation to YAML text is tied character by character to '
-         'Config.process_cmdline). Partial: the global statement "no path exists afterwards that did not exist before" and "sets exactly that path and changes nothing else" are decided '
-         'by the correspondence and by reference oracles (path-existence rule; exact single-path update incl. mistyped keys, out-of-range and negative indices), not by a theorem.',
+         'Config.process_cmdline). C08_override_sets_exactly_that_path / C08_override_mistyped_path_is_an_error: the loaded override document, merged into ANY plain base '
+         'along a path through mappings and list indices, yields the base with exactly that path set (every other entry and the order unchanged) when the path exists, and a MergeError '
+         'when a key is missing or an index lies beyond the end (the override document of the model is tied to the parsed document of the real command line on all raw flags). '
+         'Partial: for override documents that are not single chains (several keys, mapping / list values, nested !new) and bases with tags the statement "no path exists afterwards that '
+         'did not exist before" is decided by the correspondence and by the reference oracles (path-existence rule; negative indices), not by a theorem.',
     design='4 (C08)',
     technique='Coq lemmas on the creation gate of the merge loop + exhaustive flag correspondence + sampled merge correspondence; path-existence and command-line oracles for replays')
 
